@@ -36,22 +36,22 @@ type Lowerer struct {
 	memo    map[*Term]string
 	n       int
 	// INT back end state
-	ivl    map[*Term][2]*big.Int // interval of the canonical (wrapped) Int expression of a BV term
-	ctx    []*Term               // ite conditions in scope
-	minCtx int
-	facts  map[[2]uint32]bool // (a,b) such that a <= b is known globally (unsigned), from the path condition
-	varLo  map[*Term]*big.Int
-	varHi  map[*Term]*big.Int
-	splits map[string][2]string
-	loOf   map[string]splitRec
-	atomIv map[string][2]*big.Int
-	linOf  map[string]*lin // exact linear form of an emitted expression
-	modOf  map[string]*lin // atom ≡ form (mod 2^64), one level
+	ivl                map[*Term][2]*big.Int // interval of the canonical (wrapped) Int expression of a BV term
+	ctx                []*Term               // ite conditions in scope
+	minCtx             int
+	facts              map[[2]uint32]bool // (a,b) such that a <= b is known globally (unsigned), from the path condition
+	varLo              map[*Term]*big.Int
+	varHi              map[*Term]*big.Int
+	splits             map[string][2]string
+	loOf               map[string]splitRec
+	atomIv             map[string][2]*big.Int
+	linOf              map[string]*lin   // exact linear form of an emitted expression
+	modOf              map[string]*lin   // atom ≡ form (mod 2^64), one level
 	modAtoms, divAtoms map[string]modRec // atom = (mod f q) / (div f q), exact (smt_modq.go)
-	atomName map[string]string
-	hiAtoms  map[string]hiRec // H of a split X = H*2^k + L
-	wraps  int
-	Err    error
+	atomName           map[string]string
+	hiAtoms            map[string]hiRec // H of a split X = H*2^k + L
+	wraps              int
+	Err                error
 	// profile knobs
 	LinIte     bool
 	NoDefine   bool
